@@ -260,6 +260,7 @@ def main(pid, tier, seed):
     tid = 0
     n_lists = 10 if tier == 'quick' else 500
     n_train = 0
+    n_alpha_retry = 0
     for k in range(n_lists):
         pool = rng.choice(list(POOLS))
         enc = rng.choice(ENC_OF[pool])
@@ -277,6 +278,13 @@ def main(pid, tier, seed):
         else:
             kw = dict(passwords=pws)
         res = train.train(encoding=enc, ngram=ngram, alphabet_size=asz, coverage=coverage, **kw)
+        if not res['ok'] and asz < 100 and 'ZeroDivisionError' in (res['error'] or ''):
+            # no password starts with an initial n-gram inside the (tiny) alphabet: the OMEN smoothing divides by the zero
+            # IP total and training does not complete - outside C03 ("if training completes") and C06; the same list is
+            # trained with the default alphabet size instead
+            n_alpha_retry += 1
+            asz = 100
+            res = train.train(encoding=enc, ngram=ngram, alphabet_size=asz, coverage=coverage, **kw)
         desc = {'pool': pool, 'encoding': enc, 'coverage': coverage, 'ngram': ngram, 'alphabet_size': asz, 'passwords': pws[:10], 'n': len(pws)}
         if not res['ok']:
             tid += 1
@@ -357,7 +365,7 @@ def main(pid, tier, seed):
            'rule': 'C06: one trace = one saved list of one real training against the tallies captured from the trainer memory, the structure '
                    'list coverage clauses, or two trainings of the same input; C03: one trace = one real training + the real guesser run to '
                    'exhaustion with --skip_brute; non-trivial = list with more than one record',
-           'trainings': n_train, 'loader_insertion': ins, 'trace_validation': st, 'exhaustive': False, 'binding_selftest': selftest,
+           'trainings': n_train, 'trainings_not_completed_with_tiny_alphabet_retried_with_default': n_alpha_retry, 'loader_insertion': ins, 'trace_validation': st, 'exhaustive': False, 'binding_selftest': selftest,
            'known_findings_reproduced': n_known, 'violation_histogram': verdict.histogram()}
     core.write_evidence(pid, tier, seed, 'model_checking' if pid == 'C06' else 'exploration', cov, time.time() - t0, violations=n_viol,
                         assumptions=['TLC', 'written probability converted to an integer count c = round(p*total) and p == c/total checked in binary64 '
